@@ -4,6 +4,7 @@ package escape // import "github.com/tyler-sommer/stick/twig/escape"
 import (
 	"bytes"
 	"fmt"
+	"unicode/utf16"
 )
 
 // HTML provides a Twig-compatible HTML escape function.
@@ -70,6 +71,11 @@ func JS(in string) string {
 		if (c >= 65 && c <= 90) || (c >= 97 && c <= 122) || (c >= 48 && c <= 57) || c == 44 || c == 46 || c == 95 {
 			// a-zA-Z0-9,._
 			out.WriteRune(c)
+		} else if c > 0xFFFF {
+			// Outside the BMP: a \uXXXX escape holds one UTF-16 code unit,
+			// so these are written as a surrogate pair.
+			hi, lo := utf16.EncodeRune(c)
+			fmt.Fprintf(out, "\\u%04X\\u%04X", hi, lo)
 		} else {
 			// UTF-8
 			fmt.Fprintf(out, "\\u%04X", c)
